@@ -27,6 +27,7 @@ package bls24315
 //@ ghost acc = 0
 //@ loop 0
 //@ + invariant[product] 0 <= iter && iter <= len(_z) && result == old(*z) + acc
+//@ + havoc acc
 //@ cut after def e #1
 //@ + ghost acc = acc + *e
 //@ ghost y = 0
